@@ -22,7 +22,7 @@ Theorem transpose_paths_agree_den_proof :
 Proof.
   intros V veqb add c ca axes r1 r2 Hc Hs Ha H1 H2.
   rewrite (tocoo_from_coo_proof V veqb add c ca Hc Hs Ha) in H2.
-  destruct (gcxs_transpose_den_proof V c ca axes r1 Hc Hs Ha H1) as [_ [_ [Hs1 [Hf1 Hd1]]]].
+  destruct (gcxs_transpose_den_proof V veqb add c ca axes r1 Hc Hs Ha H1) as [_ [_ [Hs1 [Hf1 Hd1]]]].
   destruct (transpose_den_proof V c Hc axes r2 H2) as [_ [Hs2 [Hf2 Hd2]]].
   cbv zeta in *.
   split; [rewrite Hs1, Hs2; reflexivity|]. split; [rewrite Hf1, Hf2; reflexivity|].
